@@ -63,15 +63,29 @@ func newTemplateChecker(reg template.Registry, tpl template.Template) *templateC
 func (tc *templateChecker) checkTemplate(node ast.Node) {
 	switch node := node.(type) {
 	case *ast.LetValueNode:
+		// the variable is visible after the command, not in its own definition
 		tc.checkLet(node.Name)
+		tc.checkTemplate(node.Expr)
 		tc.letVars = append(tc.letVars, node.Name)
+		return
 	case *ast.LetContentNode:
 		tc.checkLet(node.Name)
+		tc.checkTemplate(node.Body)
 		tc.letVars = append(tc.letVars, node.Name)
+		return
 	case *ast.CallNode:
 		tc.checkCall(node)
 	case *ast.ForNode:
+		// the loop variable is visible in the loop body only: not in the list
+		// expression, not in {ifempty} and not after the loop
+		tc.checkTemplate(node.List)
 		tc.forVars = append(tc.forVars, node.Var)
+		tc.checkTemplate(node.Body)
+		tc.forVars = tc.forVars[:len(tc.forVars)-1]
+		if node.IfEmpty != nil {
+			tc.checkTemplate(node.IfEmpty)
+		}
+		return
 	case *ast.DataRefNode:
 		tc.visitKey(node.Key)
 	case *ast.HeaderParamNode:
